@@ -70,6 +70,18 @@ def run(ctx):
         what = re.sub(r"\d+", "N", str(m.get("what", "")))
         ctx.violation("fetch:time:%s:%s" % (m.get("path", m.get("form")), what[:48]), m,
                       what="a stored document is not fetched from a fraction that is consulted by time range: " + str(m.get("what"))[:160])
+    # "never crash or hang the store": fetches of stored and absent IDs while bulks are being indexed, fractions rotated
+    # and sealed (the concurrent workload of C07's stress driver; every fetched document is compared byte for byte)
+    sdr = vlib.build_driver("stress")
+    rc, outs, err = vlib.run_driver(sdr, ["-bulks", "1500" if quick else "6000", "-seed", str(ctx.seed), "-readers", "16"], timeout=3000, ok_codes=range(0, 256))
+    ssum = next((o for o in outs if o.get("summary")), None)
+    if rc != 0 or not ssum:
+        ctx.violation("fetch:concurrent:crash", {"stderr": err[-2000:]}, what="the store died while documents were fetched during ingestion: " + err[-300:])
+    else:
+        tot["evals"] += ssum["evals"]
+        for o in outs:
+            if "what" in o and ("fetch" in str(o["what"]) or "did not return" in str(o["what"])):
+                ctx.violation("fetch:concurrent:%s" % str(o["what"])[:40], o, what="fetch during ingestion: " + str(o["what"]))
     ctx.cov["traces_validated_against_impl"] = tot["cases"]
     ctx.cov["evaluations"] = tot["evals"]
     ctx.cov["distinct_nontrivial"] = tot["nontrivial"]
